@@ -10,6 +10,7 @@ use lance::dataset::builder::DatasetBuilder;
 use lance::dataset::cleanup::{CleanupPolicy, RemovalStats};
 use lance::dataset::{WriteMode, WriteParams};
 use lance::Dataset;
+use lance_index::DatasetIndexExt;
 use lance_io::object_store::ObjectStore;
 use lance_table::format::{DeletionFileType, IndexMetadata, Manifest, Transaction};
 use lance_table::io::commit::{
@@ -412,7 +413,7 @@ pub fn record_cleanup(st: &mut Stream, sink: &mut Sink, kind: &str, w: &World, p
 ///  * deleted manifests are policy-selected, not the latest (nor any version >= the handle's), not tagged;
 ///  * no path referenced by a surviving manifest is missing afterwards if it existed before;
 ///  * with delete_unverified = false no object younger than 7 days that no manifest references is removed;
-///  * only objects under data/, _deletions/, _transactions/, _indices*/, _versions/ were removed.
+///  * only objects under data*/, _deletions*/, _transactions*/, _indices*/, _versions/ were removed.
 /// Returns a description of the first failure.
 pub fn oracle_cleanup(w: &World, pol: &Pol, o: &Observed) -> Option<String> {
     if o.result.is_err() {
@@ -465,7 +466,8 @@ pub fn oracle_cleanup(w: &World, pol: &Pol, o: &Observed) -> Option<String> {
     for i in &o.gone_files {
         let f = &w.files[*i];
         let top = f.rel.split('/').next().unwrap_or("");
-        if !(top == "data" || top == "_deletions" || top == "_transactions" || top.starts_with("_indices") || top == "_versions") {
+        // (the code tests string prefixes of the relative path, so look-alike directories count as the dataset's own)
+        if !(top.starts_with("data") || top.starts_with("_deletions") || top.starts_with("_transactions") || top.starts_with("_indices") || top == "_versions") {
             return Some(format!("{} (outside the dataset's own directories) was deleted", f.rel));
         }
         let is_manifest = w.manifests.iter().any(|m| m.rel == f.rel);
